@@ -1,8 +1,7 @@
 SPECIFICATION Spec
 CONSTANTS
   MaxPat = 2
-  FixD13 = FALSE
-  StrictPaths = FALSE
+  FixEmptyDest = TRUE
 CHECK_DEADLOCK FALSE
 INVARIANT C15_AnyThenTyped
 INVARIANT C15_CallsArePrefix
